@@ -29,6 +29,7 @@ Check(i) == LET o == Obs[i] IN
    /\ Chk(CacheSafe(o), "C18", "FailedFetchWritesNoCache", o)
    /\ Chk(Terminates(o), "C18", "NoCallBlocksForever", o)
    /\ Chk(FreshAfterRefresh(o), "C18", "RefreshShowsTheCurrentResources", o)
+   /\ Chk(ReachableIsLoaded(o), "C18", "NoneOnlyForWhatCannotBeLoadedNow", o)
    /\ IF o.trace_checked /\ ~o.trace_accepted THEN Say("DIVERGENCE", "-", "-", o) ELSE TRUE
    /\ IF IsBeh(o) /\ ~(Follows(o) /\ SameOutcome(o)) THEN Say("DIVERGENCE", "-", "-", o) ELSE TRUE
 JInit == l = 1
